@@ -210,8 +210,13 @@ def run_case(case):
             keep = [np.asarray(a_) for a_ in sol_j]
             a0 = sim_args[0]
             st0 = {k: jnp.asarray(v) for k, v in golden.typed_init(a0).items()}
-            d1 = fs_only(dsl.lcm_params(psets[0]), initial_states=st0, vf_arr_list=list(sol_j), seed=4)
-            d2 = fs_only(dsl.lcm_params(psets[0]), initial_states=st0, vf_arr_list=list(sol_j), seed=4)
+            vf_list = list(sol_j)  # one list object for both calls
+            ids_before = [id(a_) for a_ in vf_list]
+            d1 = fs_only(dsl.lcm_params(psets[0]), initial_states=st0, vf_arr_list=vf_list, seed=4)
+            if len(vf_list) != len(ids_before) or [id(a_) for a_ in vf_list] != ids_before:
+                res["violations"].append({"key": "value_array_list_modified", "what": f"the list passed as vf_arr_list was modified by the call ({len(ids_before)} arrays before, {len(vf_list)} entries after, {sum(a_ is None for a_ in vf_list)} of them None)"})
+                vf_list = list(sol_j)
+            d2 = fs_only(dsl.lcm_params(psets[0]), initial_states=st0, vf_arr_list=vf_list, seed=4)
             after = [np.asarray(a_) for a_ in sol_j]
             add("value_array_reuse_sequences")
             if simcheck.frames_equal(d1, d2, tol=1e-12) or any(not np.array_equal(x_, y_, equal_nan=True) for x_, y_ in zip(keep, after)):
